@@ -833,17 +833,24 @@ def family_form(ctx, i, rng):
     except Exception as ex:
         ctx.count("replace_raised")
         ctx.covered("replace_raised_with", type(ex).__name__ + ": " + str(ex)[:70])
-        # judge on the integrands separately
+        # judge on the integrands separately: the raise is only held against replace when EVERY integrand has a
+        # defined value after the substitution and is accepted alone (one integrand that is undefined at the
+        # substituted value, e.g. atan(1j), makes the raise a legitimate refusal of the whole form)
+        every = True
         for itg in form.integrals():
             ws = make_worlds(ctx, rng, cell, gdim, itg.integral_type(), cplx)
-            if ws and expectation_defined(itg.integrand(), subst, ws):
-                try:
-                    fn(itg.integrand(), mapping)
-                except Exception:
-                    continue
-                ctx.violation(f"C21/raises-on-valid-mapping/form-only/{raise_site(ex)}/{type(ex).__name__}", f"replace(form) raised {type(ex).__name__}: {str(ex)[:200]} but accepts each integrand",
-                              {"form": safe_str(form, 1200), "mapping": describe_mapping(mapping)})
-                return
+            if not (ws and expectation_defined(itg.integrand(), subst, ws)):
+                every = False
+                break
+            try:
+                fn(itg.integrand(), mapping)
+            except Exception:
+                every = False
+                break
+        if every:
+            ctx.violation(f"C21/raises-on-valid-mapping/form-only/{raise_site(ex)}/{type(ex).__name__}", f"replace(form) raised {type(ex).__name__}: {str(ex)[:200]} but accepts each integrand",
+                          {"form": safe_str(form, 1200), "mapping": describe_mapping(mapping)})
+            return
         ctx.count("rejected_undefined")
         return
     ctx.count("accepted")
